@@ -21,3 +21,10 @@ add("C14", "bounded-exhaustive enumeration (pattern trees and shipped header sha
     "checked clause by clause (bounds, tokens, language membership, longest, order, disjointness, coverage) against reference greedy "
     "ends computed by derivatives / a depth-counting scanner. Complete inside the bounds.",
     "trusts vf/ref/regex.py and the 40-line header-shape scanner in vf/props/c14.py; token classes are one representative per kind/value")
+
+add("C15", "complete breadth-first exploration of matcher configurations x token classes with real Token objects (finite space), shortest witnesses as replays",
+    "For all 7 languages every header and follow-up expression actually passed to the matcher is captured, compiled with the real "
+    "subset construction, and every reachable (DFA state, Balanced depth class) configuration is fed every token class through "
+    "Pattern.consume; ambiguity is detected both as the engine's error and by counting accepting transitions on deep copies. "
+    "The space is finite and explored completely (exhaustive: true).",
+    "depth >= 3 abstracted to 3; token classes are representatives of kind x distinguished value; predicates are captured with four probe inputs")
